@@ -141,25 +141,17 @@ Definition mstep (s : mst) (o : op) : mst * obs :=
     pairs.  A subscription with an entry CompletePath rejects is an invalid
     request (its RPC ends with that error): its client is left unspecified. *)
 
-Record sreg := SReg {
-  r_path : path;
-  r_client : cid;
-  r_nil : bool;          (* stems from an entry without a path *)
-  r_nonlast : bool       (* entry of a subscription that has a later entry with a path *)
-}.
+Record sreg := SReg { r_path : path; r_client : cid }.
 
 Record sst := SSt {
   s_reg : list sreg;                 (* live registrations *)
   s_gone : list sreg;                (* registrations of removed handles *)
   s_handles : list (list sreg);      (* by handle *)
   s_unspec : list cid;
-  s_multi_removed : list cid;        (* clients that removed a subscription with >= 2 paths *)
   s_subclients : list cid            (* clients that called addSubscription *)
 }.
 
-Definition sst0 : sst := SSt [] [] [] [] [] [].
-
-Definition has_path (e : option gpath) : bool := match e with Some _ => true | None => false end.
+Definition sst0 : sst := SSt [] [] [] [] [].
 
 Fixpoint spec_entries (c : cid) (pre : gpath) (ents : list (option gpath)) : option (list sreg) :=
   match ents with
@@ -167,7 +159,7 @@ Fixpoint spec_entries (c : cid) (pre : gpath) (ents : list (option gpath)) : opt
   | e :: ents' =>
       match complete_path pre (gp_of_opt e), spec_entries c pre ents' with
       | Ok fp, Some rest =>
-          Some (SReg (nonempty (gp_target pre) ++ fp) c (negb (has_path e)) (existsb has_path ents') :: rest)
+          Some (SReg (nonempty (gp_target pre) ++ fp) c :: rest)
       | _, _ => None
       end
   end.
@@ -178,27 +170,22 @@ Definition same_pair (a b : sreg) : bool :=
 Definition sstep (s : sst) (o : op) : sst :=
   match o with
   | OAdd c q =>
-      let r := [SReg q c false false] in
-      SSt (s_reg s ++ r) (s_gone s) (s_handles s ++ [r]) (s_unspec s) (s_multi_removed s) (s_subclients s)
+      let r := [SReg q c] in
+      SSt (s_reg s ++ r) (s_gone s) (s_handles s ++ [r]) (s_unspec s) (s_subclients s)
   | OSub c pre ents =>
       (* one subscription list per client, as in Subscribe (a fresh matchClient per RPC);
          a client that subscribes twice is left unspecified *)
       let un := if mem c (s_subclients s) then c :: s_unspec s else s_unspec s in
       match spec_entries c pre ents with
-      | Some rs => SSt (s_reg s ++ rs) (s_gone s) (s_handles s ++ [rs]) un (s_multi_removed s) (c :: s_subclients s)
-      | None => SSt (s_reg s) (s_gone s) (s_handles s ++ [[]]) (c :: un) (s_multi_removed s) (c :: s_subclients s)
+      | Some rs => SSt (s_reg s ++ rs) (s_gone s) (s_handles s ++ [rs]) un (c :: s_subclients s)
+      | None => SSt (s_reg s) (s_gone s) (s_handles s ++ [[]]) (c :: un) (c :: s_subclients s)
       end
   | ORem h =>
       match nth_error (s_handles s) h with
       | None => s
       | Some rs =>
           SSt (filter (fun r => negb (existsb (same_pair r) rs)) (s_reg s))
-              (s_gone s ++ rs) (s_handles s) (s_unspec s)
-              (match rs with
-               | r :: _ => if (2 <=? List.length (filter (fun x => negb (r_nil x)) rs))%nat
-                           then r_client r :: s_multi_removed s else s_multi_removed s
-               | [] => s_multi_removed s
-               end) (s_subclients s)
+              (s_gone s ++ rs) (s_handles s) (s_unspec s) (s_subclients s)
       end
   | _ => s
   end.
